@@ -19,6 +19,37 @@ type FKey struct {
 	Kind   int // 0 TINK, 1 CRUNCHY, 2 LEGACY, 3 RAW
 	ID     uint32
 	Legacy bool
+	// Head: extra leading bytes of this key's ideal outputs (after its output prefix). Set by
+	// the raw-collision harnesses on RAW keys so that a RAW key's output may start with
+	// another key's 5-byte output prefix; nil otherwise.
+	Head []byte
+}
+
+// WithHead returns p || k.Head in fresh memory.
+func (k *FKey) WithHead(p []byte) []byte {
+	return append(append([]byte{}, p...), k.Head...)
+}
+
+// RawCollisionSetup gives every RAW key of ks the same 5 symbolic leading output bytes and
+// returns the index of the first ENABLED RAW key (-1 if none) and whether those bytes equal the
+// output prefix of some other ENABLED key.
+func RawCollisionSetup(ks *KS) (raw int, collides bool) {
+	head := verifrt.Bytes("head", 5)
+	raw = -1
+	for i, k := range ks.Keys {
+		if k.Kind == 3 {
+			k.Head = head
+			if raw < 0 && ks.Enabled(i) {
+				raw = i
+			}
+		}
+	}
+	for i, k := range ks.Keys {
+		if k.Kind != 3 && ks.Enabled(i) && verifrt.EqBytes(k.OutputPrefix(), head) {
+			collides = true
+		}
+	}
+	return raw, collides
 }
 
 type fParams struct{ req bool }
